@@ -31,6 +31,10 @@ def expected(line):
             if U is None or P is None: return "badcred"
             salt = rng[:32]
             return "ok %s %s %s ~32" % (U.encode().hex(), le32(pyref.verifier(U.encode(), P.encode(), salt)).hex(), salt.hex())
+        if op in ("srv.proof", "srv.server", "cli.new", "cli.verify", "recon", "cli.recon", "world.cli", "world.srv"):
+            # these take already-registered names: a string NormalizedString::new refuses never reaches the library call
+            for t in (a[1:2] if op.startswith("srv.") else a[2:3] if op.startswith("world.") else a[1:3]):
+                if pyref.normalize(_txt(t)) is None: return "badcred"
         if op == "srv.proof":
             v = pyref.le(unhx(a[2])); B = pyref.server_B(v, pyref.le(rng[:32]))
             return "panic" if B == 0 else "ok %s %s ~32" % (le32(B).hex(), a[3])
@@ -77,6 +81,17 @@ def expected(line):
         if op == "cli.recon":
             s = pyref.Session(_txt(a[1]), _txt(a[2]), rng[:32], rng[32:64], rng[64:96]); cd = rng[112:128]
             return "ok %s %s ~128" % (cd.hex(), pyref.reconnect_proof(s.U, cd, unhx(a[3]), s.K).hex())
+        if op == "world.cli":
+            U = pyref.normalize(_txt(a[2])).encode(); cseed = struct.unpack("<I", rng[:4])[0]
+            want = "ok %s %d " % (pyref.world_proof(U, unhx(a[3]), cseed, int(a[4])).hex(), cseed)
+            return lambda out, want=want: None if out.startswith(want) and out.endswith(" ~4") else "expected " + want + "... ~4"
+        if op == "world.srv":
+            U = pyref.normalize(_txt(a[2])).encode(); sseed = struct.unpack("<I", rng[:4])[0]
+            sp = pyref.world_proof(U, unhx(a[3]), int(a[5]), sseed)
+            if unhx(a[4]) != sp:
+                return "err %s %s %d ~4" % (a[4], sp.hex(), sseed)
+            want = "ok %d " % sseed
+            return lambda out, want=want: None if out.startswith(want) and out.endswith(" ~4") else "expected " + want + "... ~4"
         if op == "hdr":
             return pyhdr.expected_line(a[1], a[2], unhx(a[3]), a[4:])
         if op == "pin.hash":
